@@ -485,7 +485,12 @@ pub fn check_c12(case: &Case, st: &mut Stats) -> Verdict {
     }
     for k in 1..=n {
         let err = (mix(seed, k) % 40) as u8;
-        if let Some(v) = run_with(vec![FaultSpec { k, err }], st) {
+        // one fault point in four stays broken: every later component call fails as well
+        let sticky = mix(seed, k ^ 0x5717) % 4 == 0;
+        if sticky {
+            st.c.inc("sticky_fault_runs");
+        }
+        if let Some(v) = run_with(vec![FaultSpec { k, err, sticky }], st) {
             return Some(v);
         }
     }
@@ -499,7 +504,7 @@ pub fn check_c12(case: &Case, st: &mut Stats) -> Verdict {
             if a == b {
                 continue;
             }
-            let faults = vec![FaultSpec { k: a, err: rng.below(40) as u8 }, FaultSpec { k: b, err: rng.below(40) as u8 }];
+            let faults = vec![FaultSpec { k: a, err: rng.below(40) as u8, sticky: false }, FaultSpec { k: b, err: rng.below(40) as u8, sticky: false }];
             st.c.inc("double_fault_runs");
             if let Some(v) = run_with(faults, st) {
                 return Some(v);
